@@ -972,6 +972,8 @@ static int ec_glob(char *loc, char *cmd, char *arg, char *txt)
 	if (!(re = rstr_make(pat, xic ? RE_ICASE : 0)))
 		return 1;
 	xgdep++;
+	for (i = 0; i < lbuf_len(xb); i++)	/* marks left by a global that ended in another buffer */
+		lbuf_globget(xb, i, xgdep);
 	for (i = beg + 1; i < end; i++)
 		lbuf_globset(xb, i, xgdep);
 	i = beg;
